@@ -306,4 +306,13 @@ def fam_eintr(seed, n_random, runs):
         if rng.random() < 0.5:
             calls = [{"limit": rng.choice([1, k, 2 * k + 1])}] + [{}] * 10
         out.append(base("eintr-rnd%d" % j, piped, unit, cap, inp, child, calls, runs=runs, eintr=True))
+    # a time limit and a child that stays silent: signals interrupt the wait itself, at its start or part-way; the
+    # interrupted read() is resumed (each read() has its own limit) and none of them may wait beyond its deadline
+    j = 0
+    MS = 1_000_000
+    for tl in (3 * MS, 50 * MS, 2000 * MS):
+        for piped in (["out"], ["out", "err"], ["in", "out"]):
+            child = [["sleep", 7 * tl], ["wr", "out", 1], ["sleep", 2 * tl], ["exit"]]
+            out.append(base("eintr-tl%d" % j, piped, 4096, 2, 1, child, [{"tlim": tl}] * 14, runs=runs * 3, eintr=True))
+            j += 1
     return out
